@@ -12,7 +12,7 @@ REAL = ['onl.sim.core.Environment', 'onl.sim.events.Event/Timeout/Process/Initia
 STUBS = ['process bodies and plain callbacks are harness code']
 ASSUMPTIONS = ['registration order of process waiters is the G order of the bodies\' "about to yield" logs',
                'no condition events in C02 programs (C05 owns them)']
-PROBES = ['conditions_among_waiters', 'chained_trigger', 'driven_by_run_until_event', 'until_event_failed', 'event_ge3_waiters', 'failed_mixed_handling', 'reyield_processed_failed', 'child_failure_no_joiner',
+PROBES = ['conditions_among_waiters', 'chained_trigger', 'trigger_door_on_triggered_event', 'driven_by_run_until_event', 'until_event_failed', 'event_ge3_waiters', 'failed_mixed_handling', 'reyield_processed_failed', 'child_failure_no_joiner',
           'double_trigger', 'detached_by_interrupt', 'unhandled_escape', 'reyield_processed_ok']
 
 
@@ -130,6 +130,14 @@ def check(log, tvals, final, quiescent, cond_handling=None):
                 if e is not None:
                     expected[r[7]] = e
                     stats['chained_trigger'] = 1
+            elif what == 'chain-again':
+                _, g, now, st, _, _, _, ev, src, out, before, after, again = r
+                stats['trigger_door_on_triggered_event'] = 1
+                if after != before or again:
+                    viol.append(('C02.4', 'trigger() (the callback form of succeed/fail) on the already triggered %s '
+                                 '%s: an event can be triggered only once' %
+                                 (ev, 'scheduled it a second time' if after == before else
+                                  'changed its outcome from %r to %r' % (before, after))))
             elif what == 'addcb':
                 _, g, now, st, pid, opi, _, lb, cbid, mode = r
                 if mode != 'already-processed':
